@@ -424,7 +424,9 @@ func (g *c18Gen) decorate(op *C18Op, rd rendered) (expectOK bool) {
 		op.Want, op.State = rd.loc, digest(string(msgBytes(g.cur)))
 	}
 	if rd.needIdf {
-		op.COpts = append(op.COpts, COpt{Kind: "fn", Name: "idf", Fn: "ident"})
+		// idf() answers its input; a share of them also evaluates another expression on the way
+		// (a user function that uses the library while a patch operation is evaluating its path)
+		op.COpts = append(op.COpts, COpt{Kind: "fn", Name: "idf", Fn: pick(g.r, []string{"ident", "ident", "reenter"})})
 	}
 	op.API = pick(g.r, []string{"expr", "expr", "pkg"})
 	if rd.needVar {
